@@ -92,7 +92,10 @@ def doc (cfg : Cfg) (s : St) : Op → Doc
   | .spSubspan off count =>
     ⟨[(SP.kSubOff, off ≤ s.size), (SP.kSubCnt, count = SP.dyn ∨ off + count ≤ s.size)], fun _ =>
      if count = SP.dyn then s.elems.drop off else (s.elems.drop off).take count, fun _ => s⟩
-  | .arAt k i => ⟨if cfg.safe then [(AR.kAt k, i < s.size)] else [], fun _ => elemAt s.elems i, fun _ => s⟩
+  | .arAt k i => ⟨if s.size = 0 then [(AR.kAtZ k, false)] else if cfg.safe then [(AR.kAt k, i < s.size)] else [],
+      fun _ => elemAt s.elems i, fun _ => s⟩
+  | .arFront k => ⟨[(AR.kFront k, s.size ≠ 0)], fun _ => elemAt s.elems 0, fun _ => s⟩
+  | .arBack k => ⟨[(AR.kBack k, s.size ≠ 0)], fun _ => lastOf s.elems, fun _ => s⟩
   | .strCtorPtr xs len => ⟨[(STR.kCtorPtr, len ≤ s.cap)], fun _ => [], fun _ => withElems s (xs.take len)⟩
   | .strCtorFill n ch => ⟨[(STR.kCtorFill, n ≤ s.cap)], fun _ => [], fun _ => withElems s (List.replicate n ch)⟩
   | .strOpAssign xs => ⟨[(STR.kOpAsg, xs.length ≤ s.cap)], fun _ => [], fun _ => withElems s xs⟩
@@ -113,6 +116,12 @@ def doc (cfg : Cfg) (s : St) : Op → Doc
   | .strReplaceSub pos count src pos2 count2 =>
     ⟨[(STR.kReplPos 1, pos ≤ s.size), (STR.kReplPos2, pos2 ≤ src.length)], fun _ => [], fun _ =>
      withElems s (overwriteAt s.elems pos (((src.drop pos2).take count2).take (min count (s.size - pos))))⟩
+  -- insert(index, ...): `index <= size()` (std: out_of_range otherwise); the inserted units fit (see `WF`)
+  | .strInsert k index xs => ⟨[(STR.kInsert k, index ≤ s.size)], fun _ => [], fun _ => withElems s (insertAt s.elems index xs)⟩
+  | .strInsertFill index count ch =>
+    ⟨[(STR.kInsert 0, index ≤ s.size)], fun _ => [], fun _ => withElems s (insertAt s.elems index (List.replicate count ch))⟩
+  | .strEraseIdx index count =>
+    ⟨[(STR.kEraseIdx, index ≤ s.size)], fun _ => [], fun _ => withElems s (eraseRange s.elems index (index + min count (s.size - index)))⟩
   | .optDeref k => ⟨[(OEV.kOpt k, s.size ≠ 0)], fun _ => elemAt s.elems 0, fun _ => s⟩
   | .expDeref k => ⟨[(OEV.kExp k, s.alt = 0)], fun _ => elemAt s.elems 0, fun _ => s⟩
   | .expError k => ⟨[(OEV.kErr k, s.alt ≠ 0)], fun _ => elemAt s.elems 0, fun _ => s⟩
